@@ -70,9 +70,18 @@ type feedConn struct {
 	ci     int
 	pos    int
 	single bool // byte-at-a-time delivery
+	stall  bool // after every chunk but the last the read deadline expires once before the next bytes come
+	stalled bool
 	reads  int
 	out    []byte
 }
+
+// timeoutErr is what a net.Conn returns when its read deadline expires.
+type timeoutErr struct{}
+
+func (timeoutErr) Error() string   { return "i/o timeout" }
+func (timeoutErr) Timeout() bool   { return true }
+func (timeoutErr) Temporary() bool { return true }
 
 func (c *feedConn) Read(p []byte) (int, error) {
 	if len(p) == 0 {
@@ -80,6 +89,10 @@ func (c *feedConn) Read(p []byte) (int, error) {
 	}
 	if c.pos >= len(c.data) {
 		return 0, io.EOF
+	}
+	if c.stalled {
+		c.stalled = false
+		return 0, timeoutErr{}
 	}
 	c.reads++
 	if c.single {
@@ -92,6 +105,7 @@ func (c *feedConn) Read(p []byte) (int, error) {
 	c.pos += n
 	if c.pos == end {
 		c.ci++
+		c.stalled = c.stall && c.pos < len(c.data)
 	}
 	return n, nil
 }
@@ -106,11 +120,14 @@ func (c *feedConn) SetWriteDeadline(t time.Time) error { return nil }
 // frag describes one fragmentation of a stream of length L.
 type frag struct {
 	single bool
-	p, q   int // cut positions (0 = unused); 0 < p < q < L
+	p, q   int  // cut positions (0 = unused); 0 < p < q < L
+	stall  bool // the read deadline expires once at every cut (slow peer)
 }
 
 func (f frag) class() string {
 	switch {
+	case f.stall:
+		return "stall"
 	case f.single:
 		return "bytewise"
 	case f.p == 0:
@@ -123,6 +140,10 @@ func (f frag) class() string {
 
 func (f frag) String() string {
 	switch {
+	case f.stall && f.q == 0:
+		return fmt.Sprintf("chunks cut at byte %d, the read deadline expiring once in between", f.p)
+	case f.stall:
+		return fmt.Sprintf("chunks cut at bytes %d and %d, the read deadline expiring once at each cut", f.p, f.q)
 	case f.single:
 		return "one byte per Read"
 	case f.p == 0:
@@ -134,7 +155,7 @@ func (f frag) String() string {
 }
 
 func (f frag) conn(data []byte) *feedConn {
-	c := &feedConn{data: data, single: f.single}
+	c := &feedConn{data: data, single: f.single, stall: f.stall}
 	for _, x := range []int{f.p, f.q, len(data)} {
 		if x > 0 {
 			c.cuts[c.ncuts] = x
@@ -357,7 +378,7 @@ type checker struct {
 	maxMsgSize int
 
 	nWriterCases, nFrames, nReaderRuns, nReaderMsgs int64
-	nCut1, nCut2, nBytewise, nWhole                   int64
+	nCut1, nCut2, nBytewise, nWhole, nStall           int64
 	nPieceFrames, nPieceBytes, nUploadEvents          int64
 	nKeepAlives, nPolicy, nForeign, nOutgrow          int64
 	nDupReject                                        int64
@@ -627,6 +648,27 @@ func (ck *checker) checkReader(res wres) {
 		}
 		atomic.AddInt64(&ck.nCut2, int64(len(cuts2)*(len(cuts2)-1)/2))
 	}
+	// slow peer: the read deadline expires while a block is half received, once or twice. The reader keeps
+	// receiving as long as some bytes arrived in the window, so cuts are placed where that is certain:
+	// inside the payload of a piece message, more than 17 bytes (its bufio buffer) after the 13-byte header.
+	s := 0
+	for _, fr := range frames {
+		if len(fr) > 13+40 && fr[4] == 7 {
+			lo, hi := s+13+18, s+len(fr)-1
+			pts := []int{lo, lo + 1, (lo + hi) / 2, hi - 1, hi}
+			for i, p := range pts {
+				try(frag{p: p, stall: true})
+				atomic.AddInt64(&ck.nStall, 1)
+				for _, q := range pts[i+1:] {
+					if q > p {
+						try(frag{p: p, q: q, stall: true})
+						atomic.AddInt64(&ck.nStall, 1)
+					}
+				}
+			}
+		}
+		s += len(fr)
+	}
 }
 
 // ---------------------------------------------------------------------------------------------
@@ -689,7 +731,7 @@ func TestC11(t *testing.T) {
 	rep.Rule = "every point of the message lattice (all 20 message kinds incl. keep-alive; u32 fields over the boundary set; bitfield/metadata/PEX/piece sizes incl. the sizes " +
 		"around the writer's 16397-byte array) is sent through the real PeerWriter (Run loop, messageWriter goroutine, virtual clock) and the captured bytes are compared with the " +
 		"refcodec (BEP 3/6/9/10/11) encoding; the captured bytes are fed to the real PeerReader whole, one byte per Read, under every 1-cut and every 2-cut of the cut lattice " +
-		"(all positions for streams <= full bytes, else all positions within r of a structural point plus a stride grid); sequences = every ordered tuple of representatives up to the stated depth, " +
+		"(all positions for streams <= full bytes, else all positions within r of a structural point plus a stride grid), and - slow peer - with the read deadline expiring once or twice inside the payload of every piece message (cuts at payload start+18, +19, middle, end-1, end); sequences = every ordered tuple of representatives up to the stated depth, " +
 		"plus big-frame/small-frame reuse sequences; handshake = every reserved-bit pattern x every 1-cut and 2-cut of the 68 bytes through readHandshake1/2 and btconn.Accept. " +
 		"distinct = distinct (kind, frame length) classes that passed through the writer."
 	rep.Assumptions = []string{
@@ -912,6 +954,7 @@ func TestC11(t *testing.T) {
 	rep.Extra["reader_runs_bytewise"] = ck.nBytewise
 	rep.Extra["reader_runs_cut1"] = ck.nCut1
 	rep.Extra["reader_runs_cut2"] = ck.nCut2
+	rep.Extra["reader_runs_stalled_block"] = ck.nStall
 	rep.Extra["reader_messages_delivered"] = ck.nReaderMsgs
 	rep.Extra["piece_frames_on_wire"] = ck.nPieceFrames
 	rep.Extra["piece_payload_bytes_on_wire"] = ck.nPieceBytes
